@@ -122,7 +122,7 @@ func (r *Run) RunScenario(sc *Scenario) {
 			for cs := range ch {
 				rs := make([]*Result, len(cs.Srcs))
 				for i, s := range cs.Srcs {
-					if cs.FreshRefs && i > 0 {
+					if (cs.FreshRefs && i > 0) || cs.FreshAll {
 						rs[i] = r.Cfg.Pool.ExecFresh(s)
 					} else {
 						rs[i] = r.Cfg.Pool.Exec(s)
